@@ -64,6 +64,97 @@ theorem ref_evicts_min (c : Cfg) (s : Ref) (pk v : Nat)
   unfold Ref.getOrCreate
   simp only [hm, hv, List.length_cons, if_pos hfull, hm']
 
+/-! helper facts about `findK` / `eraseK` for `created_then_hit` -/
+theorem findK_last (l : List Entry) (e : Entry) (hl : ∀ x ∈ l, x.k ≠ e.k) :
+    findK (l ++ [e]) e.k = some e := by
+  unfold findK
+  rw [List.find?_append]
+  have : l.find? (fun x => x.k == e.k) = none := by
+    rw [List.find?_eq_none]; intro x hx; simpa using hl x hx
+  rw [this]; simp
+
+theorem findK_none_keys {l : List Entry} {k : Nat} (h : findK l k = none) : ∀ x ∈ l, x.k ≠ k := by
+  unfold findK at h
+  rw [List.find?_eq_none] at h
+  intro x hx; simpa using h x hx
+
+theorem findK_some_key {l : List Entry} {k : Nat} {e : Entry} (h : findK l k = some e) : e.k = k := by
+  unfold findK at h
+  have := List.find?_some h
+  simpa using this
+
+theorem eraseK_keys (l : List Entry) (k : Nat) : ∀ x ∈ eraseK l k, x.k ≠ k := by
+  intro x hx
+  unfold eraseK at hx
+  simpa using (List.mem_filter.mp hx).2
+
+/-- C08.created_then_hit: whenever GetOrCreate(pk) returns a value — by a hit or by a successful
+create, with or without an eviction — the entry it returned is resident afterwards: an immediate
+second GetOrCreate(pk) is a hit on the same value with no create call and no delete callback
+(the entry just used is never the one evicted; needs capacity ≥ 1). -/
+theorem created_then_hit (c : Cfg) (hc : 1 ≤ c.cap) (s : EC) (pk v : Nat)
+    (h : (s.getOrCreate c pk).2.1 = .val v) :
+    ((s.getOrCreate c pk).1.getOrCreate c pk).2 = (.val v, []) := by
+  cases hf : findK s.items (c.km pk) with
+  | some e =>
+    have hk := findK_some_key hf
+    have h1 : s.getOrCreate c pk = ({ s with items := eraseK s.items (c.km pk) ++ [e] }, .val e.v, []) := by
+      unfold EC.getOrCreate; simp only [hf]
+    rw [h1] at h ⊢
+    simp only at h
+    have h2 := findK_last (eraseK s.items (c.km pk)) e (by rw [hk]; exact eraseK_keys _ _)
+    rw [hk] at h2
+    unfold EC.getOrCreate
+    simp only [h2]
+    injection h with h; rw [h]
+  | none =>
+    have hkeys := findK_none_keys hf
+    cases hcr : c.cr pk s.calls with
+    | none =>
+      have h1 : (s.getOrCreate c pk).2.1 = .err := by
+        unfold EC.getOrCreate; simp only [hf, hcr]
+      rw [h1] at h; cases h
+    | some v' =>
+      let new : Entry := { k := c.km pk, pk := pk, v := v' }
+      by_cases hfull : c.cap < (s.items ++ [new]).length
+      · cases hs : s.items with
+        | nil => rw [hs] at hfull; simp at hfull; omega
+        | cons a t =>
+          have hak : a.k ≠ c.km pk := hkeys a (by rw [hs]; simp)
+          have h1 : s.getOrCreate c pk = ({ s with calls := s.calls + 1, items := eraseK (s.items ++ [new]) a.k }, .val v', [.create pk (some v'), .delete a.pk a.v]) := by
+            unfold EC.getOrCreate
+            simp only [hf, hcr]
+            rw [if_pos hfull]
+            simp only [hs, List.cons_append]
+            rfl
+          rw [h1] at h ⊢
+          simp only at h
+          injection h with h
+          have he : eraseK (s.items ++ [new]) a.k = eraseK s.items a.k ++ [new] := by
+            unfold eraseK
+            rw [List.filter_append]
+            congr 1
+            simp [new]; exact fun hh => hak hh.symm
+          have h2 := findK_last (eraseK s.items a.k) new (by
+            intro x hx; unfold eraseK at hx; exact hkeys x (List.mem_filter.mp hx).1)
+          unfold EC.getOrCreate
+          simp only [he]
+          have h3 : new.k = c.km pk := rfl
+          rw [h3] at h2
+          simp only [h2]; rw [← h]
+      · have h1 : s.getOrCreate c pk = ({ s with calls := s.calls + 1, items := s.items ++ [new] }, .val v', [.create pk (some v')]) := by
+          unfold EC.getOrCreate
+          simp only [hf, hcr]
+          rw [if_neg hfull]
+        rw [h1] at h ⊢
+        simp only at h
+        injection h with h
+        have h2 := findK_last s.items new hkeys
+        have h3 : new.k = c.km pk := rfl
+        rw [h3] at h2
+        unfold EC.getOrCreate
+        simp only [h2]; rw [← h]
+
 /-- non-vacuity: capacity 2, a hit reorders, the next miss evicts the least recently used -/
 example :
     let c : Cfg := { cap := 2, km := id, cr := fun pk n => some (100 * pk + n), expOf := fun _ => 0 }
